@@ -1311,7 +1311,7 @@ class CanUnprotect(BaseSecurityContext):
         if unprotected.pop(COSE_COUNTERSIGNATURE0, None) is not None:
             try:
                 alg_signature = self.alg_signature
-            except NameError:
+            except AttributeError:
                 raise DecodeError(
                     "Group messages can not be decoded with this non-group context"
                 )
@@ -1481,6 +1481,8 @@ class CanUnprotect(BaseSecurityContext):
 
         if firstbyte & COMPRESSION_BIT_H:
             # kid context hint
+            if not tail:
+                raise DecodeError("Context hint announced but not present")
             s = tail[0]
             if len(tail) - 1 < s:
                 raise DecodeError("Context hint announced but not present")
